@@ -36,7 +36,7 @@ def run(out: common.Outcome):
         out, "C10", [("crash", 1.0)], ["restart_budget", "stuck", "internal_error"],
         nontrivial=lambda r: len(r["summary"]["dead"]) >= 1,
         rule="all modes, budgets unset/0/1/2/4/4n, crashing tests and kills, plus suites in which every test kills its worker; non-trivial = at least one death",
-        modes=None, extra_jobs=allcrash_jobs)
+        modes=None, extra_jobs=allcrash_jobs, extra_corr=system_common.ctl_extra(['restart_budget', 'internal_error']))
 
 
 replay = system_common.replay
